@@ -1,0 +1,18 @@
+//go:build verif
+
+package tsdb
+
+// VerifFlushIdle returns if no flush job of the database is queued or running in the data flush checker
+// (verification harness only: Database.Flush hands the job to a worker goroutine and returns at once).
+func VerifFlushIdle(db Database) bool {
+	d, ok := db.(*database)
+	if !ok {
+		return true
+	}
+	fc, ok := d.flushChecker.(*dataFlushChecker)
+	if !ok {
+		return true
+	}
+	_, busy := fc.dbInFlushing.Load(db.Name())
+	return !busy
+}
